@@ -275,10 +275,36 @@ pub fn flat(w: &mut World, p: &Profile) -> Plan {
     }
     let short = n > 8;
     let err_bias = w.ch.draw("err.bias", 5) + 1;
+    // large containers: in half of the runs readiness is *sparse* — every child starts with one or more
+    // Pending steps except one or two drawn positions (otherwise "the first k children in scan order are all
+    // pending" has probability 2^-k and budget / block-boundary effects beyond a few dozen children are never reached)
+    let sparse = n > 6 && w.ch.draw("big.sparse", 2) == 1;
     let mut leaves = Vec::with_capacity(n);
     for _ in 0..n {
-        let lp = if fam.is_stream() { stream_script(w, p, short) } else { fut_script(w, fallible(fam), p, short, err_bias) };
+        let mut lp = if fam.is_stream() { stream_script(w, p, short) } else { fut_script(w, fallible(fam), p, short, err_bias) };
+        if sparse {
+            let k = 1 + w.ch.draw("sparse.pends", 2);
+            for _ in 0..k {
+                let m = wake_mode(w, p.allow_never);
+                lp.script.insert(0, Step::Pend(m));
+            }
+        }
         leaves.push(lp);
+    }
+    if sparse {
+        for _ in 0..1 + w.ch.draw("sparse.ready", 2) {
+            let i = w.ch.draw("sparse.pos", n as u32) as usize;
+            while matches!(leaves[i].script.first(), Some(Step::Pend(_))) {
+                leaves[i].script.remove(0);
+            }
+            if leaves[i].script.is_empty() && leaves[i].term == Terminal::Never {
+                leaves[i] = if fam.is_stream() {
+                    LeafPlan { script: vec![Step::Item, Step::End], term: Terminal::Finished }
+                } else {
+                    LeafPlan { script: vec![Step::Ready { err: false }], term: Terminal::Finished }
+                };
+            }
+        }
     }
     let mut distinguished = None;
     let mut max_yields = u32::MAX;
